@@ -5,8 +5,17 @@ meta.json's checks/detected_by. Scratch copies are removed."""
 import json, os, subprocess, sys, tempfile, shutil, concurrent.futures as cf
 ROOT = os.path.dirname(os.path.dirname(os.path.abspath(__file__)))
 ENV = dict(os.environ, GOFLAGS="-mod=mod", GOPROXY="off", GOSUMDB="off", GOTOOLCHAIN="local", GOWORK="off")
-ids = sys.argv[1:] or sorted(os.listdir(os.path.join(ROOT, "seeded")))
+SELF = None
+argv = sys.argv[1:]
+if len(argv) >= 2 and argv[0] == "--self-test":
+    # thorough-tier self-test of one property: only that property's seeds, only its own check,
+    # nothing is written back
+    SELF = argv[1]; argv = []
+ids = argv or sorted(os.listdir(os.path.join(ROOT, "seeded")))
 ALL = sorted(json.load(open(os.path.join(ROOT, "scripts", "manifest_src.json")))["checks"].keys())
+if SELF:
+    ids = [i for i in ids if i.startswith(SELF + "-")]
+    ALL = [SELF]
 def one(sid):
     d = os.path.join(ROOT, "seeded", sid)
     mp = os.path.join(d, "meta.json")
@@ -17,7 +26,9 @@ def one(sid):
         subprocess.check_call("git -C /repo ls-files -z | (cd /repo && xargs -0 cp --parents -t %s)" % tmp, shell=True)
         if subprocess.call("patch -p1 -s < %s" % os.path.join(d, "patch.diff"), shell=True, cwd=tmp, stdout=subprocess.DEVNULL, stderr=subprocess.DEVNULL) != 0:
             meta["applies_to_current_head"] = False
-            json.dump(meta, open(mp, "w"), indent=1); return sid, "patch no longer applies"
+            if not SELF:
+                json.dump(meta, open(mp, "w"), indent=1)
+            return sid, "patch no longer applies"
         meta["applies_to_current_head"] = True
         out = tempfile.mkdtemp(prefix="evseedout.")
         det = {}
@@ -26,6 +37,8 @@ def one(sid):
             lines = [l.strip() for l in pr.stdout.splitlines() if l.startswith("  C") or l.startswith("UNDECIDED")]
             det[pid] = {"exit": pr.returncode, "reports": [l[:400] for l in lines[:6]]}
         shutil.rmtree(out, ignore_errors=True)
+        if SELF:
+            return sid, [k for k, v in det.items() if v["exit"] != 0]
         meta["checks"] = det
         meta["detected_by"] = [k for k, v in det.items() if v["exit"] != 0]
         json.dump(meta, open(mp, "w"), indent=1)
@@ -36,4 +49,8 @@ with cf.ThreadPoolExecutor(max_workers=4) as ex:
     for sid, det in ex.map(one, ids):
         meta = json.load(open(os.path.join(ROOT, "seeded", sid, "meta.json"))) if det is not None else {}
         own = meta.get("property")
+        if SELF:
+            tag = "SEED-SKIP" if isinstance(det, str) else ("SEED-CAUGHT" if det and own in det else "SEED-MISSED")
+            print("%s %s %s" % (tag, sid, det if isinstance(det, str) else ""))
+            continue
         print("%-8s property=%s own-check=%s detected_by=%s" % (sid, own, "CAUGHT" if det and own in det else "MISSED", det))
